@@ -42,16 +42,26 @@ Definition in_time (t : timing) : bool :=
     end
   else true.
 
+(* one exchange of a history against a real server: the size of the response body, whether the response reader read it
+   to its end, and what was observed of the body the transport handed out: bytes taken off the connection through it,
+   whether its end was seen, Close calls; whether Submit succeeded *)
+Record xobs := mkxo { xo_size : N; xo_reader_ends : bool; xo_taken : N; xo_ended : bool; xo_closes : nat; xo_ok : bool }.
+
 Inductive case :=
 (* CDrain: segments and Read sizes in units of unit bytes (segment i holds S (segs i) units, C12_drain_any_unit);
    the observed byte counts (log, unread) in bytes *)
 | CDrain (unit : N) (segs : list nat) (fin : final) (sizes : list nat)
          (log : list (N * nat)) (closes : nat) (unread : N) (ended : bool)
-| CCall (nvalues : nat) (files : list fileprog) (sc : scenario) (keepalive : bool) (o : callobs) (t : timing)
+(* CCall: files = per upload source what each of its Reads reports (nil / io.EOF / io.ErrUnexpectedEOF / any other error
+   value; sticky), compiled into the goroutine's program by Lifecycle.lower *)
+| CCall (nvalues : nat) (files : list srcfile) (sc : scenario) (keepalive : bool) (o : callobs) (t : timing)
+(* CReuse: sequential calls on ONE Runtime against a real loopback server through a real http.Transport; conns =
+   the connections the server saw *)
+| CReuse (keepalive : bool) (calls : list xobs) (conns : nat)
 | CDeadline (parent : option Z) (timeout : Z) (client : Z) (observed : option Z) (duration : Z).
 
-Definition has_failing (files : list fileprog) : bool :=
-  existsb (fun f => (negb (fp_declared f) && negb (fp_sniff_ok f)) || existsb negb (fp_chunks f)) files.
+(* some upload source fails: its first Read that does not return nil reports something else than io.EOF *)
+Definition has_failing (files : list srcfile) : bool := existsb src_fails files.
 
 (* the whole request body is consumed before the outcome is decided *)
 Definition body_consumed (sc : scenario) : bool :=
@@ -77,7 +87,7 @@ Definition check_case (c : case) : N :=
        was still unread when Close was called *)
     verdict corr (Nat.eqb closes 1 && ended && N.eqb unread 0)
   | CCall nvalues files sc keepalive o t =>
-    let m := call all_fixed (compile all_fixed nvalues files) sc in
+    let m := call all_fixed (compile all_fixed nvalues (map lower files)) sc in
     let nfiles := length files in
     let expect_closes := if c_started m then w_file_closes (c_w m) + c_builder_closes m else c_builder_closes m in
     let corr :=
@@ -94,6 +104,21 @@ Definition check_case (c : case) : N :=
       (if keepalive then N.eqb (co_resp_left o) 0 else true) &&
       (if has_failing files && body_consumed sc && negb (sc_param_err sc) then negb (co_ok o) else true) &&
       co_in_time o && in_time t in
+    verdict corr prop
+  | CReuse keepalive calls conns =>
+    let corr1 (c : xobs) :=
+      let m := after_exchange keepalive (xo_reader_ends c) in
+      xo_ok c && Bool.eqb (xo_ended c) (x_ended m) && Nat.eqb (xo_closes c) (x_closes m) &&
+      (if x_ended m then N.eqb (xo_taken c) (xo_size c) else N.leb (xo_taken c) (xo_size c)) in
+    let corr := forallb corr1 calls &&
+                Nat.eqb conns (conns_of_history submit_epilogue keepalive (map xo_reader_ends calls)) in
+    (* every response body closed exactly once; with connection reuse enabled its end was reached before (every byte of
+       it was taken off the connection) and the calls shared one connection *)
+    let prop1 (c : xobs) :=
+      xo_ok c && Nat.eqb (xo_closes c) 1 &&
+      (if keepalive then xo_ended c && N.eqb (xo_taken c) (xo_size c) else true) in
+    let prop := forallb prop1 calls &&
+                (if keepalive then match calls with [] => true | _ => Nat.eqb conns 1 end else true) in
     verdict corr prop
   | CDeadline parent timeout client observed duration =>
     (* the deadline seen by the transport lies between the effective deadline computed at the start of the
